@@ -10,7 +10,7 @@ DRIVER = "C12"
 TIMEOUT = 1500
 
 RULE = ("savefiles of generated applications (C12's family: preset selectors with dependent defaults, toggles that "
-        "allocate a pointer sub-tree, enabled-by on embedded sub-trees, rDepends lists, up to 3 levels, enumerated "
+        "allocate a pointer sub-tree, enabled-by on embedded sub-trees (also by a port inside the sub-tree), rDepends lists, up to 3 levels, enumerated "
         "sub-trees) in states reached by 3..12 random parameter messages; the message lines are permuted: ALL "
         "permutations up to 6 lines (quick: always up to 4 lines, for every 4th file up to 6), random permutations "
         "beyond; plus sub-files from which depended-on lines (selectors, switches together with their sub-tree) are "
@@ -21,7 +21,7 @@ TRUSTED = ["harness/h_C12.cpp (perm stream): splitting the real savefile into me
            "the recording savefile_dispatcher_t subclass",
            "tools/props/save_common.py: the apropos table handed to the model (exact path -> metadata of the port it denotes)"]
 ASSUMPTIONS = ["addresses in a file are distinct (what save_to_file produces)",
-               "sibling names are prefix-free (Ports::apropos finds the port a path denotes; C18's sibling condition)",
+               "sibling names are prefix-free, except that a leaf's name may extend a sub-tree's name (fx_on beside fx/): Ports::apropos finds the port a path denotes (C18's sibling condition)",
                "a sub-file keeps, for every line below a pointer sub-tree, the line of the switch that allocates it"]
 
 def deps_of(ref, i):
@@ -214,6 +214,7 @@ TECHNIQUE = ("Coq proof about a code-shaped model of scan_deps (string surgery o
 LEVEL_TEXT = ("The sort as coded is proved correct for ALL inputs: on acyclic (ranked) edges the fuel suffices, the hand-out order is a "
               "permutation of the messages and respects every edge (C13_kahn, C13_topo over the edges scan_deps produces); two "
               "dependency-respecting orders of the same lines give the same state and count when independent messages commute "
-              "(C13_linear_extensions_agree, C13_perm_invariant_partial). Open: same_edges, commutation for the abstract application, "
-              "C13_edges_complete (see notes/C13.md).")
+              "(C13_linear_extensions_agree); for C12's abstract application the commutation is proved, so permuting the lines of a file "
+              "changes neither the state nor the count (C13_perm_invariant: wf_app, metadata declares the dependencies - decidable, "
+              "C13_declared_computed, evaluated in the tie -, acyclic edges); C13_edges_complete, C13_same_edges full at model level.")
 LEVEL_NOTE = "apropos (C18) and the metadata lookup (C17) enter the model as a function argument; the application semantics are C12's abstract application"
